@@ -6,11 +6,23 @@ import (
 	"pgregory.net/rapid"
 
 	"verif/lib/capgen"
+	"verif/lib/host"
 	"verif/lib/prog"
 	"verif/lib/resgen"
 	"verif/lib/storgen"
 	"verif/lib/vir/virhost"
 )
+
+// meteringCalls runs the history once on the VM with a counting (non-recording) gauge under a
+// generous computation limit and returns the number of metering calls: a deterministic cost measure.
+func meteringCalls(h prog.History) int {
+	runs, _ := Run(Item{Hist: h}, RunOpts{Engine: host.VM, CompLimit: 3_000_000, FaultStep: -1})
+	n := 0
+	for _, r := range runs {
+		n += r.Gauge.MemCalls + r.Gauge.CompCalls
+	}
+	return n
+}
 
 // External history sources: one Register line per generator package. Each
 // adapter is a pure function of r.
@@ -19,7 +31,18 @@ func init() {
 	Register("storgen/containers", func(r *rand.Rand, n int) []prog.History {
 		out := make([]prog.History, 0, n)
 		for i := 0; i < n; i++ {
-			out = append(out, storgen.GenContHistory(storgen.FromRand(r), storgen.ContGenConfig{MaxExecs: 6, MaxOps: 6}).History())
+			// storgen's bulk operations (up to 400 elements, repeated) can make one history cost tens of
+			// seconds and millions of metering calls; the exec properties re-run every history many times,
+			// so take the first of up to 6 candidates whose clean run stays small (deterministic: the
+			// measure is the number of metering calls, not time)
+			var h prog.History
+			for try := 0; try < 6; try++ {
+				h = storgen.GenContHistory(storgen.FromRand(r), storgen.ContGenConfig{MaxExecs: 4, MaxOps: 5}).History()
+				if meteringCalls(h) <= 500_000 {
+					break
+				}
+			}
+			out = append(out, h)
 		}
 		return out
 	})
